@@ -1,5 +1,5 @@
 // C15: handles travel out of band intact; UniqueHandle closes exactly once.
-//@tu unwind=12 memunwind=110 loop:ReadEntries=4
+//@tu unwind=12 memunwind=110 loop:ReadEntries=4 loop:HandleWriter::Skip=40
 #include "io.h"
 #include "pool.h"
 #include <new>
@@ -123,6 +123,7 @@ static void table_harness() {
   if (e1) { V1 x; x.a = nd8(); x.h = IntHandle{r1}; if (oh) x.oh = IntHandle{r2}; v.v = x; }
   v.x = nd8();
   HLog lg; draw_refs(&lg);
+  for (int i = 0; i < 3; i++) vassume(lg.next_refs[i] < 64);   // one-byte reference encodings here (arbitrary 63-bit references: struct/array harnesses); keeps entry positions concrete
   std::uint8_t buf[96] = {}; HandleWriter w{&lg, buf, sizeof buf};
   nop::Serializer<HandleWriter*> s{&w};
   auto st = s.Write(v);
